@@ -65,7 +65,7 @@ def run(env, tier, seed, broken=None):
         for op in ['||', '&&', OR_W, AND_W]:
             cases.append({'id': 'l%d' % n, 'src': PRE + '%s p("L", %s) %s p("R", 7);\n' % (PRINT, v, op)}); n += 1
         cases.append({'id': 'l%d' % n, 'src': PRE + '%s !p("L", %s);\n%s (p("C", %s)) { %s "T"; } %s { %s "F"; }\n' % (PRINT, v, IF, v, PRINT, ELSE, PRINT)}); n += 1
-    y1, y2 = 'য়', 'য়'
+    y1, y2 = '\u09df', '\u09af\u09bc'
     cases.append({'id': 'l%d' % n, 'src': PRE + '%s o = {%s: p("first", 1), k: p("second", 2), %s: p("third", 3)};\n%s %s(o);\n%s o.%s + o.%s;\n' % (VAR, y1, y2, PRINT, LEN.replace(LEN, VALUES), PRINT, y1, y2)}); n += 1
     cases.append({'id': 'l%d' % n, 'src': PRE + 'x = arr[p("three", 0)] = undefinedName = p("four", 0) || p("five", "v") && p("six", %s);\n' % NIL}); n += 1
     cases.append({'id': 'l%d' % n, 'src': PRE + 'undefinedName = p("only", 1);\n%s "after";\n' % PRINT}); n += 1
